@@ -57,6 +57,9 @@ def jobs(tier, seed):
     for op in ('curvature', 'slope'):
         for (cy, cx) in _grids(3, 3, tier, seed + 19, 2 if tier == 'quick' else 6):
             out.append({'name': '%s-3x3-f32model-%s-%s' % (op, 'x'.join(map(str, cy)), 'x'.join(map(str, cx))), 'op': op, 'shape': [3, 3], 'chunks': [list(cy), list(cx)], 'f32': True})
+    # two lazy results evaluated together in one graph (dask.compute(r1, r2)): each must still equal its own NumPy result
+    for op in ('hillshade', 'aspect', 'slope', 'curvature', 'reclassify', 'equal_interval', 'mean1', 'convolution', 'ndvi', 'perlin'):
+        out.append({'name': 'joint-%s-3x3' % op, 'op': 'joint', 'fn': op, 'shape': [3, 3], 'chunks': [[2, 1], [1, 2]]})
     # focal mean with an explicit excludes list that does not contain NaN (the NaN halo then takes part in the window like on the raster edge)
     for op in ('mean1e', 'mean2e'):
         for (cy, cx) in _grids(3, 4, tier, seed + 17, 4 if tier == 'quick' else 16):
@@ -84,6 +87,58 @@ def jobs(tier, seed):
         if gi == 1 or tier != 'quick':
             out.append({'name': 'terrain-3x4-g%d' % gi, 'op': 'terrain', 'shape': [3, 4], 'chunks': ch})
     return out
+
+
+def body_joint(ctx, job, pair, h, w):
+    """same function, two different inputs / parameters, dask results computed in one graph"""
+    fn = job['fn']
+    # two different fixed rasters with one symbolic cell each (the question is which graph a value comes from, not the per-cell formula)
+    d1 = symnp.asarray([[float((y * 5 + x * 3) % 7) for x in range(w)] for y in range(h)], 'float64').copy()
+    d2 = symnp.asarray([[float((y * 2 + x * 7 + 3) % 5) + 0.5 for x in range(w)] for y in range(h)], 'float64').copy()
+    d1[1, 1] = ctx.real('d_centre', lo=-10, hi=10)
+    d2[0, 2] = ctx.real('e_corner', lo=-10, hi=10)
+    n1, a1 = pair(d1, 'r1')
+    n2, a2 = pair(d2, 'r2')
+    if fn == 'hillshade':
+        calls = [('hillshade:hillshade', (225.0, 25.0)), ('hillshade:hillshade', (315.0, 45.0))]
+    elif fn in ('aspect', 'slope', 'curvature'):
+        calls = [('%s:%s' % (fn, fn), ()), ('%s:%s' % (fn, fn), ())]
+    elif fn == 'reclassify':
+        calls = [('classify:reclassify', ([1.0, 5.0], [10, 20])), ('classify:reclassify', ([2.0, 3.0, 8.0], [1, 2, 3]))]
+    elif fn == 'equal_interval':
+        calls = [('classify:equal_interval', (2,)), ('classify:equal_interval', (3,))]
+    elif fn == 'mean1':
+        calls = [('focal:mean', (1,)), ('focal:mean', (2,))]
+    elif fn == 'convolution':
+        k1 = symnp.asarray([[0.0, 1.0, 0.0], [1.0, 1.0, 1.0], [0.0, 1.0, 0.0]], 'float64')
+        k2 = symnp.asarray([[1.0, 0.0, 1.0], [0.0, 2.0, 0.0], [1.0, 0.0, 1.0]], 'float64')
+        calls = [('convolution:convolution_2d', (k1,)), ('convolution:convolution_2d', (k2,))]
+    elif fn == 'ndvi':
+        calls = [('multispectral:ndvi', 'swap'), ('multispectral:ndvi', 'swap')]
+    elif fn == 'perlin':
+        calls = [('perlin:perlin', ((1, 1), 5)), ('perlin:perlin', ((2, 1), 5))]
+    else:
+        raise KeyError(fn)
+    if fn == 'ndvi':
+        ref = [vals(ctx.call('multispectral:ndvi', n1, n2)), vals(ctx.call('multispectral:ndvi', n2, n1))]
+        got = ctx.call_joint([('multispectral:ndvi', (a1, a2), {}), ('multispectral:ndvi', (a2, a1), {})])
+    elif fn == 'perlin':
+        z1 = symnp.zeros((h, w), 'float32')
+        pn1, pa1 = pair(z1, 'p1')
+        pn2, pa2 = pair(z1, 'p2')
+        ref = [vals(ctx.call(calls[0][0], pn1, *calls[0][1])), vals(ctx.call(calls[1][0], pn2, *calls[1][1]))]
+        got = ctx.call_joint([(calls[0][0], (pa1,) + tuple(calls[0][1]), {}), (calls[1][0], (pa2,) + tuple(calls[1][1]), {})])
+    else:
+        if fn in ('hillshade', 'reclassify', 'equal_interval', 'mean1', 'convolution'):
+            n2, a2 = n1, a1           # same raster, different parameters (a layer name derived from the input alone collides)
+        ref = [vals(ctx.call(calls[0][0], n1, *calls[0][1])), vals(ctx.call(calls[1][0], n2, *calls[1][1]))]
+        got = ctx.call_joint([(calls[0][0], (a1,) + tuple(calls[0][1]), {}), (calls[1][0], (a2,) + tuple(calls[1][1]), {})])
+    for k_, (r, g) in enumerate(zip(ref, got)):
+        gv = vals(g)
+        ctx.observe('joint%d' % k_, gv)
+        for c in cells((h, w)):
+            ctx.check('computed-together-equals-numpy', ctx.close(gv[c], r[c], TOL32),
+                      info=lambda m, c=c, k_=k_, gv=gv, r=r: {'fn': fn, 'result': k_, 'cell': list(c), 'dask_joint': ctx.ev(m, gv[c]), 'numpy': ctx.ev(m, r[c])})
 
 
 def body(ctx, job):
@@ -114,6 +169,8 @@ def body(ctx, job):
                       info=lambda m, c=c: {'op': op, 'cell': list(c), 'chunks': chunks, 'dask': ctx.ev(m, b[c]), 'numpy': ctx.ev(m, a[c])})
 
     dt = job.get('dtype', 'float64')
+    if op == 'joint':
+        return body_joint(ctx, job, pair, h, w)
     if op == 'hillshade-angles':
         # non-default, symbolic illumination: both backends must receive both parameters
         d = ctx.array('d', (h, w), dt, nan=True)
@@ -209,9 +266,9 @@ def body(ctx, job):
             compare(ctx.call('perlin:perlin', a_np, freq, seed_), ctx.call('perlin:perlin', a_da, freq, seed_), op, exact=False)
     elif op == 'terrain':
         z = symnp.zeros((h, w), 'float32')
-        r_np = ctx.call('terrain:_terrain_numpy', z.copy(), 10, (0.0, 1.0), (0.0, 1.0), 4000.0)
+        r_np = ctx.call('terrain:_terrain_numpy', z.copy(), 10, (0.0, 0.5), (0.25, 0.375), 4000.0)
         zd = symda.Array(z.copy(), tuple(tuple(c) for c in chunks))
-        r_da = ctx.call('terrain:_terrain_dask_numpy', zd, 10, (0.0, 1.0), (0.0, 1.0), 4000.0)
+        r_da = ctx.call('terrain:_terrain_dask_numpy', zd, 10, (0.0, 0.5), (0.25, 0.375), 4000.0)
         a = r_np
         b = r_da.compute() if isinstance(r_da, symda.Array) else r_da
         ctx.check('result-stays-dask-backed', isinstance(r_da, symda.Array))
